@@ -27,6 +27,7 @@ from hypothesis import HealthCheck, Phase, given, seed, settings
 from vf.base import VERIF_DIR, Discard, Failure, short
 
 KNOWN_PATH = os.path.join(VERIF_DIR, 'known_findings.json')
+OUT_DIR = os.environ.get('VERIF_OUT') or VERIF_DIR  # where evidence and new replays are written (sensitivity runs redirect it)
 NSHARDS = int(os.environ.get('VERIF_SHARDS', '16'))
 SHRINK_BUDGET_S = float(os.environ.get('VERIF_SHRINK_S', '45'))
 
@@ -46,6 +47,28 @@ class Sub:
 
 class _Abort(BaseException):
     pass
+
+
+def _library_raised(exc):
+    """True when the innermost traceback frame is library (static_frame / numpy) code reached from a check,
+    i.e. the library raised while the check was observing a result (not a bug in the harness itself)."""
+    tb = traceback.extract_tb(exc.__traceback__)
+    if not tb:
+        return None
+    inner = tb[-1].filename
+    if os.sep + 'vf' + os.sep in inner or 'hypothesis' in inner:
+        return None
+    for fr in reversed(tb):
+        if 'static_frame' + os.sep + 'core' in fr.filename:
+            return '%s:%s' % (os.path.basename(fr.filename), fr.name)
+    return None
+
+
+def _as_failure(exc):
+    where = _library_raised(exc)
+    if where is None:
+        return None
+    return Failure('raised-in-observation:%s' % type(exc).__name__, 'the library raised %r while a result was being read' % (exc,), where)
 
 
 def case_key(case):
@@ -148,6 +171,19 @@ def _collect(sub, n, sd, tier='quick'):
         except Exception as e:  # noqa: BLE001 - harness bug, reported as exit 2
             if type(e).__module__.startswith('hypothesis'):
                 raise
+            f = _as_failure(e)
+            if f is not None:
+                sig, tag = _sig(sub, case, f)
+                bkey = sub.name + '::' + sig
+                pk = pickle.dumps(case, protocol=4)
+                b = stats.buckets.get(bkey)
+                if b is None:
+                    stats.buckets[bkey] = dict(count=1, tag=tag, sub=sub.name, sig=sig, pickle=pk, kind=f.kind, detail=f.detail[:2000], where=f.where, seed=sd)
+                else:
+                    b['count'] += 1
+                    if len(pk) < len(b['pickle']):
+                        b.update(pickle=pk, kind=f.kind, detail=f.detail[:2000], where=f.where)
+                return
             if len(stats.harness_errors) < 5:
                 stats.harness_errors.append('%s: %s\n%s\ncase=%s' % (sub.name, e, traceback.format_exc()[-1500:], short(case, 800)))
             return
@@ -192,6 +228,16 @@ def _collect_enum(sub, tier, shard, nshards):
                     b.update(pickle=pk, kind=f.kind, detail=f.detail[:2000], where=f.where)
             continue
         except Exception as e:  # noqa: BLE001
+            f = _as_failure(e)
+            if f is not None:
+                sig, tag = _sig(sub, case, f)
+                bkey = sub.name + '::' + sig
+                if bkey not in stats.buckets:
+                    stats.buckets[bkey] = dict(count=1, tag=tag, sub=sub.name, sig=sig, pickle=pickle.dumps(case, protocol=4), kind=f.kind,
+                                               detail=f.detail[:2000], where=f.where, seed=0, enum=True)
+                else:
+                    stats.buckets[bkey]['count'] += 1
+                continue
             if len(stats.harness_errors) < 5:
                 stats.harness_errors.append('%s: %s\n%s\ncase=%s' % (sub.name, e, traceback.format_exc()[-1500:], short(case, 800)))
             continue
@@ -230,6 +276,15 @@ def _shrink(sub, n, sd, target_sig, first_pickle, tier='quick'):
         except Exception as e:  # noqa: BLE001
             if type(e).__module__.startswith('hypothesis'):
                 raise
+            f = _as_failure(e)
+            if f is not None:
+                sig, _ = _sig(sub, case, f)
+                if sig == target_sig:
+                    seen['hit'] = True
+                    pk = pickle.dumps(case, protocol=4)
+                    if len(pk) <= len(best['pk']):
+                        best['pk'] = pk
+                    raise f
             return
 
     strategy = sub.thorough_strategy if (tier == 'thorough' and sub.thorough_strategy is not None) else sub.strategy
@@ -262,7 +317,7 @@ def load_known(pid):
 
 
 def write_replay(pid, sub, sig, case, f_kind, f_detail, f_where, prefix=''):
-    d = os.path.join(VERIF_DIR, 'replays', pid)
+    d = os.path.join(OUT_DIR, 'replays', pid)
     os.makedirs(d, exist_ok=True)
     h = hashlib.sha1(sig.encode()).hexdigest()[:10]
     path = os.path.join(d, '%s%s_%s.json' % (prefix, sub.name if hasattr(sub, 'name') else sub, h))
@@ -282,6 +337,12 @@ def run_case(sub, case):
     except Discard:
         return 'discard', None, None
     except Failure as f:
+        sig, tag = _sig(sub, case, f)
+        return 'fail', sig, f
+    except Exception as e:  # noqa: BLE001
+        f = _as_failure(e)
+        if f is None:
+            raise
         sig, tag = _sig(sub, case, f)
         return 'fail', sig, f
     return 'pass', None, None
@@ -460,7 +521,7 @@ def write_evidence(mod, tier, sd, total, per_sub, known_hit, violations, wall, n
             ev['coverage'].update(extra(tier))
         except Exception as e:  # noqa: BLE001
             ev['coverage']['extra_error'] = repr(e)
-    d = os.path.join(VERIF_DIR, 'evidence')
+    d = os.path.join(OUT_DIR, 'evidence')
     os.makedirs(d, exist_ok=True)
     with open(os.path.join(d, '%s.json' % pid), 'w') as fh:
         json.dump(ev, fh, indent=1, default=str)
